@@ -18,8 +18,15 @@ type c07Scenario struct {
 
 var profClose = mux.Profile{Name: "close", Variants: []int{mux.VariantLL, mux.VariantLL, mux.VariantFMP4, mux.VariantMPEGTS}, LeadUnits: [2]int{10, 140}, MaxAudio: 2, ParamRate: 2, AllowDisk: true, SegCountMax: 8}
 
+// the same with a small SegmentMaxSize: some Write is rejected, Close follows that rejection
+var profCloseSmall = func() mux.Profile { p := profClose; p.Name = "close-small"; p.SmallMax, p.OversizedRA = true, true; return p }()
+
 func drawC07(t *rapid.T) c07Scenario {
-	sc := c07Scenario{Script: mux.DrawScript(t, profClose)}
+	prof := profClose
+	if rapid.IntRange(0, 3).Draw(t, "smallMax") == 0 {
+		prof = profCloseSmall
+	}
+	sc := c07Scenario{Script: mux.DrawScript(t, prof)}
 	n := len(sc.Script.Ops)
 	sc.Plan.CloseAfterOp = rapid.OneOf(rapid.Just(-1), rapid.IntRange(0, 3), rapid.IntRange(0, n-1), rapid.IntRange(n/2, n-1)).Draw(t, "closeAfter")
 	if sc.Plan.CloseAfterOp >= n {
@@ -34,6 +41,7 @@ func drawC07(t *rapid.T) c07Scenario {
 	}
 	sc.Plan.PauseClose = rapid.Bool().Draw(t, "pauseClose")
 	sc.Plan.CloseTwice = rapid.IntRange(0, 3).Draw(t, "closeTwice") == 0
+	sc.Plan.SlowHint = sc.Script.Config.Variant == mux.VariantLL && rapid.IntRange(0, 3).Draw(t, "slowHint") == 0
 	if sc.Script.Config.Disk && rapid.IntRange(0, 3).Draw(t, "breakDir") == 0 {
 		sc.Plan.BreakDir = rapid.IntRange(1, 60).Draw(t, "breakDirBefore")
 	}
@@ -75,6 +83,12 @@ func execC07(sc c07Scenario) core.Outcome {
 	}
 	if r.WriteFailed {
 		o.Labels = append(o.Labels, "write-failed-on-storage")
+	}
+	if r.SlowTransfer {
+		o.Labels = append(o.Labels, "slow-client-mid-transfer")
+	}
+	if r.WriteRejected {
+		o.Labels = append(o.Labels, "write-rejected-for-size")
 	}
 	if r.SecondClosePanicked {
 		o.Labels = append(o.Labels, "second-close-panicked(outside the statement)")
